@@ -1,7 +1,7 @@
 from common import COMMON_TB
 
 PROP = {
-    "suites": ["c07"],
+    "suites": ["c07", "smcli"],
     "lean_modules": ["Lc.Props.C07"],
     "leanchecker": True,
     "trusted_base": COMMON_TB + [
